@@ -48,7 +48,7 @@ pub fn setup(name: &str, tier_depth: usize, max_rewinds: u32, wall: f64) -> (cra
 
 fn params(tier: Tier) -> (&'static str, usize, u32, f64) {
     match tier {
-        Tier::Quick => ("tiny", 12, 1, 45.0),
+        Tier::Quick => ("tiny", 12, 1, 36.0),
         Tier::Thorough => ("mid", 10, 2, 900.0),
     }
 }
